@@ -1714,7 +1714,7 @@ async fn final_phase(run: &mut Run<'_>) {
                             run.viol(v);
                         }
                         if judge {
-                            if let Some(v) = run.o16.final_liveness(cc, &acct, &pname, &j, &run.solves_acked, &tasks, run.case.faults || run.cl[cc].account_change_cancelled) {
+                            if let Some(v) = run.o16.final_liveness(cc, &acct, &pname, &j, &run.solves_acked, &tasks, run.case.faults || run.cl[cc].account_change_cancelled, exact) {
                                 run.viol(v);
                             }
                         }
